@@ -1,6 +1,7 @@
 import BtcwVerif.Lemmas.InvPres
 import BtcwVerif.Lemmas.Rollback
 import BtcwVerif.Model.Ledger
+import BtcwVerif.Lemmas.RefFacts
 /-!
 # C02 — reorgs converge; state depends on the surviving facts
 
@@ -13,9 +14,10 @@ Proved here, for all stores / ledgers / transactions (no bounds):
   or above the height vanish; every non-coinbase transaction of a detached block that does not depend on a detached
   coinbase is unconfirmed afterwards with its credits intact; on confirmation unrelated unconfirmed transactions and
   their credits stay).
-NOT proved: `rollback`/`insertMinedTx` realise these sentences on the store (`C02_disconnect`, `C02_confirm`,
-DESIGN §6) and path independence as a theorem.  They are checked at run time: model = specification = real Go code on
-every generated history, and Go↔Go on pairs (history with reorg cycles vs direct construction of its final facts).
+Ledger level (end of the file, from the refinement Lemmas/Ref*.lean): `C02_disconnect`, `C02_confirm`, `C02_abandon`
+— `rollback`, `insertMinedTx` (+ credits) and `RemoveUnminedTx` realise `Ledger.apply` on every good pair;
+`C02_refines` — after every chain-consistent history the store refines the ledger; `C02_path_independence` — two
+chain-consistent histories whose final ledgers hold the same facts answer every query alike.
 -/
 namespace TxStore.C02
 open TxStore KMap
@@ -297,5 +299,113 @@ def exStore : Store :=
 
 example : (removeUnminedTx exStore ⟨1, [⟨90, 0⟩], [500]⟩).map unminedTxHashes = .ok [3] := by decide
 example : (removeUnminedTx exStore ⟨1, [⟨90, 0⟩], [500]⟩).map (·.unminedCredits.map (·.1)) = .ok [⟨3, 0⟩] := by decide
+
+/-! ## Ledger level -/
+open Ledger
+
+/-- **`Rollback` realises *disconnected***: on every store that refines a well-formed ledger, `Rollback(h)` succeeds
+and the result refines `Ledger.apply L (.disconnected h)` — the blocks at or above `h` are gone, their non-coinbase
+transactions are unconfirmed again with their credits, the coinbases and every unconfirmed transaction depending on
+them have disappeared.  No precondition on `h`. -/
+theorem C02_disconnect (s : Store) (L : Ledger) (hg : Good s L) (h : Int) :
+    ∃ s', rollback s h = .ok s' ∧ Good s' (Ledger.apply L (.disconnected h)) := by
+  obtain ⟨s', h1, h2, _⟩ := good_disconnected hg L.now h
+  exact ⟨s', h1, h2⟩
+
+/-- **`InsertTx` + `AddCredit` realise *confirmed***: for a chain-consistent confirmation the calls of
+`wallet.addRelevantTx` succeed and the result refines `Ledger.apply`: the transaction joins its block, its unconfirmed
+copy and credits move, the credits it spends are marked, conflicting unconfirmed transactions and all their
+descendants disappear, leases on its inputs end -/
+theorem C02_confirm (s : Store) (L : Ledger) (hg : Good s L) (bm : BlockMeta) (t : Tx) (cr : List (Nat × Bool))
+    (hc : Consistent L (.confirmed bm t cr)) :
+    ∃ r, addRelevantTx false s t (some bm) cr = .ok r ∧ Good r.2 (Ledger.apply L (.confirmed bm t cr)) := by
+  obtain ⟨s', h1, h2, _⟩ := good_confirmed hg L.now hc
+  have h1' : (addRelevantTx false s t (some bm) cr >>= fun r => pure r.2) = .ok s' := h1
+  replace h1 := h1'
+  cases hr : addRelevantTx false s t (some bm) cr with
+  | error e => rw [hr] at h1; cases h1
+  | ok r =>
+    rw [hr] at h1
+    simp only [bind_ok, pure_eq, Except.ok.injEq] at h1
+    exact ⟨r, rfl, by rw [h1]; exact h2⟩
+
+/-- **`RemoveUnminedTx` realises *abandoned***: the transaction and all its unconfirmed descendants disappear, with
+their credits; nothing else changes -/
+theorem C02_abandon (s : Store) (L : Ledger) (hg : Good s L) (t : Tx) (hc : Consistent L (.abandoned t)) :
+    ∃ s', removeUnminedTx s t = .ok s' ∧ Good s' (Ledger.apply L (.abandoned t)) := by
+  obtain ⟨s', h1, h2, _⟩ := good_abandoned hg L.now hc
+  exact ⟨s', h1, h2⟩
+
+/-- **the store refines the ledger after every chain-consistent history** (any interleaving of deliveries,
+confirmations, disconnections to any height, reconnections in any order, abandonments, lease events): every store call
+succeeds, and every bucket holds exactly what the ledger expects (`Refines`), the store invariant `WF2` and the ledger's
+well-formedness hold -/
+theorem C02_refines (es : List Event) (hc : ConsistentHistory {} es) :
+    ∃ s, storeAfter Store.empty {} es = .ok s ∧ Good s (ledgerAfter {} es) := by
+  obtain ⟨s, h1, h2, _⟩ := good_reachable es hc
+  exact ⟨s, h1, h2⟩
+
+/-- **C02, path independence**: two chain-consistent histories — however different: with or without reorgs, blocks
+connected in different orders, transactions first seen unconfirmed or directly in a block — whose final ledgers hold
+the same facts (`SameFacts`: same blocks with the same sets of transactions, same unconfirmed set, same credited
+outputs, same leases, same clock) leave stores that answer alike:
+* `Balance` for every coinbase maturity, `minConf` and `syncHeight`;
+* `UnspentOutputs`: the same set of outputs with amounts, blocks and coinbase flags;
+* `TxDetails` of every hash: both "none", or the same transaction under the same block with the same credit and debit
+  records (compared as sets; the record order inside a bucket scan is the only order dependence left in a record).
+What remains order-dependent: the order of the transactions inside one block record and inside the unconfirmed batch
+(`RangeTransactions` lists a block's transactions in the order the wallet learned them; the comparison oracle sorts
+each batch by hash for that reason). -/
+theorem C02_path_independence (es1 es2 : List Event) (hc1 : ConsistentHistory {} es1) (hc2 : ConsistentHistory {} es2)
+    (hf : SameFacts (ledgerAfter {} es1) (ledgerAfter {} es2)) :
+    ∃ s1 s2, storeAfter Store.empty {} es1 = .ok s1 ∧ storeAfter Store.empty {} es2 = .ok s2 ∧
+      (∀ mat m sy, balance s1 (ledgerAfter {} es1).now mat m sy = balance s2 (ledgerAfter {} es2).now mat m sy) ∧
+      (∃ l1 l2, unspentOutputs s1 (ledgerAfter {} es1).now = .ok l1 ∧
+        unspentOutputs s2 (ledgerAfter {} es2).now = .ok l2 ∧ l1.Perm l2) ∧
+      (∀ h, ∃ o1 o2, txDetails s1 h = .ok o1 ∧ txDetails s2 h = .ok o2 ∧ SameAnswer o1 o2) := by
+  obtain ⟨s1, h1, hg1, hn1⟩ := good_reachable es1 hc1
+  obtain ⟨s2, h2, hg2, hn2⟩ := good_reachable es2 hc2
+  refine ⟨s1, s2, h1, h2, ?_, ?_, ?_⟩
+  · intro mat m sy
+    rw [balance_eq_storeTruth s1 (inv_of_wf _ hg1.wf2.wf), balance_eq_storeTruth s2 (inv_of_wf _ hg2.wf2.wf),
+      balance_refines hg1, balance_refines hg2, hf.balance_eq]
+  · obtain ⟨l1, e1, p1⟩ := utxos_refines hg1
+    obtain ⟨l2, e2, p2⟩ := utxos_refines hg2
+    exact ⟨l1, l2, e1, e2, p1.trans (hf.utxos_perm.trans p2.symm)⟩
+  · intro h
+    obtain ⟨o1, e1, a1⟩ := details_refines hg1 hn1 h
+    obtain ⟨o2, e2, a2⟩ := details_refines hg2 hn2 h
+    rw [hf.details_eq hg1.lwf hg2.lwf] at a1
+    exact ⟨o1, o2, e1, e2, sameAnswer_of_agree a1 a2⟩
+
+/-- non-vacuity of `C02_path_independence`: a history with a reorg (block 2 connected, disconnected, another block 2
+connected; a payment first seen unconfirmed, later confirmed) and the direct construction of the same final facts -/
+def exReorg : List Event :=
+  [.confirmed ⟨⟨1, 11⟩, 100⟩ ⟨1, [⟨0, nullIndex⟩], [5000]⟩ [(0, false)],
+   .seen ⟨2, [⟨77, 0⟩], [300, 400]⟩ [(0, false), (1, true)],
+   .confirmed ⟨⟨2, 22⟩, 200⟩ ⟨2, [⟨77, 0⟩], [300, 400]⟩ [(0, false), (1, true)],
+   .disconnected 2,
+   .confirmed ⟨⟨2, 23⟩, 201⟩ ⟨2, [⟨77, 0⟩], [300, 400]⟩ [(0, false), (1, true)]]
+
+def exDirect : List Event :=
+  [.confirmed ⟨⟨1, 11⟩, 100⟩ ⟨1, [⟨0, nullIndex⟩], [5000]⟩ [(0, false)],
+   .confirmed ⟨⟨2, 23⟩, 201⟩ ⟨2, [⟨77, 0⟩], [300, 400]⟩ [(0, false), (1, true)]]
+
+example : ConsistentHistory {} exReorg := by
+  unfold exReorg
+  refine ⟨?_, ?_, ?_, ?_, ?_, trivial⟩ <;>
+    exact ⟨by decide, by decide, fun t ht => by
+      first
+        | (cases ht; exact ⟨by decide, by decide⟩)
+        | cases ht⟩
+
+example : ConsistentHistory {} exDirect := by
+  unfold exDirect
+  refine ⟨?_, ?_, trivial⟩ <;>
+    exact ⟨by decide, by decide, fun t ht => by cases ht; exact ⟨by decide, by decide⟩⟩
+
+example : SameFacts (ledgerAfter {} exReorg) (ledgerAfter {} exDirect) := by
+  have : ledgerAfter {} exReorg = ledgerAfter {} exDirect := by decide
+  rw [this]; exact SameFacts.refl _
 
 end TxStore.C02
